@@ -55,6 +55,10 @@ pub(crate) fn responses_len(q: &IterativeQuery) -> usize {
     q.responses.len()
 }
 
+pub(crate) fn push_response(q: &mut IterativeQuery, r: Response) {
+    q.responses.push(r)
+}
+
 pub(crate) fn push_candidate(q: &mut IterativeQuery, n: Node) {
     q.closest.add(n)
 }
